@@ -35,7 +35,7 @@ def world_description(tier):
 def shards(tier, seed):
     out = [{"tier": tier, "part": "nameid", "i": i} for i in range(NSH)]
     out += [{"tier": tier, "part": "types", "i": 0}, {"tier": tier, "part": "merge", "i": 0}]
-    out += [{"tier": tier, "part": "filter", "i": 0}]
+    out += [{"tier": tier, "part": "filter", "i": 0}, {"tier": tier, "part": "gff3", "i": 0}]
     try:
         from checks import c18_genbank  # noqa
 
@@ -99,9 +99,60 @@ def check_nameid(res, ordered, how, deco):
     return o
 
 
+GFF3_NAME_KEYS = {"standard_name": 10, "Name": 15, "gene": 20, "gene_name": 30, "label": 40, "operon": 50}
+
+
+def run_gff3(res, tier):
+    """the GFF3 reader's side of the rule: a non-gene feature (with and without a child row) whose column 9 carries an
+    ordered subset of the name keys (rank-0 `feature_name` left to the nameid part and its known finding) is read with the
+    name of the best-ranked key, whatever the order of the attributes - for the feature collection and for its interval"""
+    import os
+    import tempfile
+
+    from inscripta.biocantor.io.gff3.parser import parse_standard_gff3
+
+    kmax = 3 if tier == "quick" else 4
+    for k in range(1, kmax + 1):
+        for ordered in itertools.permutations(GFF3_NAME_KEYS, k):
+            for with_child in (False, True):
+                attrs = ";".join(f"{key}=V{key}" for key in ordered)
+                text = "##gff-version 3\nchr1\tsrc\tpromoter\t11\t20\t.\t+\t.\tID=f1;" + attrs + "\n"
+                if with_child:
+                    text += "chr1\tsrc\tTF_binding_site\t12\t15\t.\t+\t.\tID=c1;Parent=f1;" + ";".join(f"{key}=C{key}" for key in ordered) + "\n"
+                fd, path = tempfile.mkstemp(prefix="c18_", suffix=".gff3", dir=os.environ.get("TMPDIR") or None)
+                try:
+                    with os.fdopen(fd, "w") as fh:
+                        fh.write(text)
+
+                    def read():
+                        recs = list(parse_standard_gff3(path))
+                        d = recs[0].annotation.to_annotation_collection().to_dict()
+                        fc = d["feature_collections"][0]
+                        return fc["feature_collection_name"], [f["feature_name"] for f in fc["feature_intervals"]], [f["feature_id"] for f in fc["feature_intervals"]]
+
+                    o = lib.outcome(read)
+                finally:
+                    os.unlink(path)
+                res.trans()
+                best = min(ordered, key=lambda key: GFF3_NAME_KEYS[key])
+                exp = ("V" + best, ["C" + best] if with_child else ["V" + best], ["c1"] if with_child else ["f1"])
+                case = {"kind": "gff3", "keys": list(ordered), "with_child": with_child}
+                res.state(("gff3", ordered, with_child))
+                if k >= 2:
+                    res.nontriv(("gff3", ordered, with_child))
+                res.note("gff3", f"n={k}")
+                if o[0] != "ok":
+                    res.deviation("parse_standard_gff3", case, o[1], list(exp), sig="gff3-raises")
+                elif tuple(o[1]) != exp:
+                    res.deviation("parse_standard_gff3", case, list(o[1]), list(exp), sig="gff3-name-id")
+
+
 def run_shard(shard):
     res = ShardResult()
     tier, part = shard["tier"], shard["part"]
+    if part == "gff3":
+        run_gff3(res, tier)
+        return res
     if part == "nameid":
         kmax = 4 if tier == "quick" else 9
         idx = 0
@@ -221,7 +272,7 @@ def replay(case):
 
         c18_genbank.replay(res, case)
         return res.deviations
-    r = run_shard({"tier": "quick", "part": {"types": "types", "merge": "merge", "filter": "filter"}[k], "i": 0})
+    r = run_shard({"tier": "thorough" if k == "gff3" else "quick", "part": {"types": "types", "merge": "merge", "filter": "filter", "gff3": "gff3"}[k], "i": 0})
     return [d for d in r.deviations if d["case"] == case] or r.deviations
 
 
